@@ -38,7 +38,21 @@ def _copy_tree(src_root: str, dst_root: Path) -> None:
     shutil.copytree(src, dst, ignore=ignore)
 
 
+def _apply_patch(patch: str, root: Path) -> str:
+    import subprocess
+
+    pp = Path(__file__).resolve().parents[2] / patch
+    if not pp.exists():
+        return "broken-variant: patch %s missing" % patch
+    r = subprocess.run(["git", "apply", "--include=pydsdl/*", "--exclude=*/_test*", str(pp)], cwd=str(root), capture_output=True, text=True)
+    if r.returncode != 0:
+        return "skipped: patch does not apply to this tree (%s)" % (r.stderr.strip().splitlines() or ["?"])[0][:120]
+    return ""
+
+
 def _apply(variant: Dict[str, Any], root: Path) -> str:
+    if variant.get("patch"):
+        return _apply_patch(variant["patch"], root)
     edits = variant.get("edits") or [variant]
     for e in edits:
         p = root / e["file"]
@@ -84,6 +98,10 @@ def _run_one(args: Tuple[Dict[str, Any], str]) -> Dict[str, Any]:
         exp = variant["expect"]
         if exp == "fire":
             good = res["status"] == "violation" and (not variant.get("rules") or bool(set(variant["rules"]) & set(fired_rules)))
+        elif exp == "no-violation":
+            good = res["status"] != "violation"  # the change is about another property: it may or may not be analysable here
+        elif exp == "any":
+            good = True
         else:
             good = res["status"] == "ok"
         out["outcome"] = "as-expected" if good else "MISMATCH"
@@ -119,12 +137,13 @@ def run_for_property(prop: str, repo_root: str) -> Tuple[Dict[str, Any], List[st
                 % (r["id"], v.get("what", ""), v["expect"], " by " + ",".join(v["rules"]) if v.get("rules") else "", r["outcome"], r.get("status"), r.get("fired_rules"), r.get("errors") or r.get("detail") or "")
             )
     fire = sum(1 for v in variants if v["expect"] == "fire")
+    cross = sum(1 for v in variants if v["expect"] in ("no-violation", "any"))
     extra = {
         "selftest": [
             {k: r.get(k) for k in ("id", "outcome", "status", "fired_rules", "first")} | {"expect": by[r["id"]]["expect"], "what": by[r["id"]].get("what", "")}
             for r in results
         ],
-        "selftest_summary": "%d/%d as expected (%d must-fire, %d must-stay-silent, %d skipped)" % (n_ok, len(variants), fire, len(variants) - fire, n_skip),
+        "selftest_summary": "%d/%d as expected (%d must-fire, %d must-stay-silent, %d seeded changes to other properties that must not raise a violation here, %d skipped)" % (n_ok, len(variants), fire, len(variants) - fire - cross, cross, n_skip),
         "selftest_wall_s": round(time.time() - t0, 2),
     }
     return extra, errors
